@@ -35,6 +35,20 @@ def check_removed(N0, E0, N1, E1, X, requested, prune, extra_lost=frozenset()):
             lost = any((p, c) in E0 and (c in Xs or (p, c) in extra_lost) for c in N0)
             if lost and not any((p, c) in E1 for c in N1):
                 return f"survivor {p} lost a successor and is left with none"
+    # exactness (reference model): the requested nodes, plus — when pruning — exactly the ancestors that are left with no successor
+    # because of the removal (least fixpoint)
+    R = {x for x in requested if x in N0}
+    if prune and not extra_lost:
+        changed = True
+        while changed:
+            changed = False
+            for p in N0 - R:
+                succ = {c for (q, c) in E0 if q == p}
+                if succ and succ <= R:
+                    R.add(p)
+                    changed = True
+    if (not prune or not extra_lost) and Xs != R:
+        return f"removed {sorted(Xs)} where exactly {sorted(R)} had to be removed (prune={prune})"
     return None
 
 
@@ -110,6 +124,13 @@ def one_sequence(steps=25, nodes=8):
                 return hist, "sources/sinks disagree with the view"
             if g.get_nodes() != N0 or g.empty() != (not N0):
                 return hist, "get_nodes/empty disagree with the view"
+            # what a query hands out is the caller's: editing it must leave the graph (and its mirror) as it was
+            for n in list(N0)[:3]:
+                for got in (g.successors(n), g.predecessors(n), g.get_nodes(), g.get_sources(), g.get_sinks()):
+                    got.add(-999)
+                    got.discard(next(iter(got)))
+            if view(g) != (N0, E0):
+                return hist, "editing the set returned by a query changed the graph"
         if not wf(g):
             return hist, f"{hist[-1][0]}: successor and predecessor views no longer mirror each other"
     return hist, None
